@@ -61,7 +61,7 @@ def _mul(a: DV, b: DV, sgn: int = 1) -> DV:
 
 KEEP = {
     "abs", "min", "max", "amin", "amax", "real", "conj", "reshape", "view", "expand", "expand_as", "unsqueeze", "squeeze", "float", "to", "clone", "detach", "sum", "mean", "flatten", "contiguous", "item",
-    "tensor", "as_tensor", "double", "type", "cat", "stack", "clamp", "index_select", "gather", "t", "transpose", "permute", "imag", "median", "absolute", "neg", "cumsum", "repeat",
+    "tensor", "as_tensor", "double", "type", "cat", "stack", "clamp", "index_select", "gather", "t", "transpose", "permute", "imag", "median", "absolute", "neg", "cumsum", "repeat", "repeat_interleave", "tile",
 }
 
 
